@@ -233,7 +233,11 @@ Cb == /\ Line("cb") /\ Consume
          /\ viol' = viol
               \* C03 soundness: explained by an operation that had begun before the callback
               \cup (IF Justified(x, facts) THEN {}
-                    ELSE IF Justified(x, facts \cup dfacts) THEN {"P_C03_SoundDevMovedOutKeepsWatch"} ELSE {"P_C03_Sound"})
+                    \* deviation D7: the event is what an operation on a moved-out directory would be under its old name,
+                    \* or it names something below the old in-tree path of a directory that left the tree (its kernel
+                    \* watch survives, also when the same directory comes back under another name)
+                    ELSE IF Justified(x, facts \cup dfacts) \/ (x.hs /\ \E g \in gone : Pre(g, x.src))
+                         THEN {"P_C03_SoundDevMovedOutKeepsWatch"} ELSE {"P_C03_Sound"})
               \* C02: a non-recursive watch never reports anything below the root's direct children
               \cup (IF ~cfg.recursive /\ ((x.hs /\ Len(x.src) > 1) \/ (x.hd /\ Len(x.dst) > 1)) THEN {"P_C02_NonRecursiveSilentBelow"} ELSE {})
               \* C19: path type preserved, every component is an exact name of the tree
